@@ -584,16 +584,21 @@ func v6ContainerKind(key string) string {
 var v6ShrexAnswers = []string{
 	"honest",
 	"other:0", "other:1", "other:2", // honest data for other coordinates of the same square
-	"othersq",   // honest data for the same coordinates of another square
-	"longsq",    // the same followed by its last message once more (one more share for a square): wrong AND too long
-	"trunc",     // OK + the first half of the honest payload
-	"truncmsg",  // OK + the honest payload without its last message (last share for a square)
-	"ext",       // OK + the honest payload + its last message once more (one more share for a square)
-	"gshare",    // one payload byte of a share changed (still decodes)
-	"gproof",    // one byte of a proof node changed / row side flag flipped (still decodes)
-	"graw",      // the byte in the middle of the payload changed
-	"garbage",   // OK + bytes that are no message
-	"empty",     // OK + nothing
+	"othersq",  // honest data for the same coordinates of another square
+	"longsq",   // the same followed by its last message once more (one more share for a square): wrong AND too long
+	"trunc",    // OK + the first half of the honest payload
+	"truncmsg", // OK + the honest payload without its last message (last share for a square)
+	"ext",      // OK + the honest payload + its last message once more (one more share for a square)
+	"gshare",   // one payload byte of a share changed (still decodes)
+	"gproof",   // one byte of a proof node changed / row side flag flipped (still decodes)
+	"graw",     // the byte in the middle of the payload changed
+	"garbage",  // OK + bytes that are no message
+	"empty",    // OK + nothing
+	// OK + the first k bytes of the honest payload, then the transfer dies before EOF: "pr" = the stream is
+	// reset, "ph" = nothing more comes until the per-attempt deadline resets it. k = 1 byte, half, all but the
+	// last byte, and - for responses of several length-delimited messages - exactly the first message.
+	"pr:1", "pr:half", "pr:last", "pr:msg",
+	"ph:1", "ph:half", "ph:last", "ph:msg",
 	"nf",        // NOT_FOUND (written by the real server for a height it does not hold)
 	"internal",  // INTERNAL (written by the real server whose store fails)
 	"invalid",   // status INVALID
@@ -688,6 +693,17 @@ func (s *v6Square) buildTable(g *v6Gen) error {
 					}
 				}
 			}
+			// prefixes of the honest payload for the transfers that die midway ("pr:*" / "ph:*")
+			if len(payload) > 2 {
+				t["part:1"] = v6Cat(okStatus, payload[:1])
+				t["part:half"] = v6Cat(okStatus, payload[:len(payload)/2])
+				t["part:last"] = v6Cat(okStatus, payload[:len(payload)-1])
+				if key != "eds" {
+					if fr, ok := v6Frames(payload); ok && len(fr) > 1 {
+						t["part:msg"] = v6Cat(okStatus, fr[0])
+					}
+				}
+			}
 			t["garbage"] = v6Cat(okStatus, bytes.Repeat([]byte{0xff}, 40))
 			t["empty"] = append([]byte(nil), okStatus...)
 			if b, err := serve(s.S.EDS, key, v6GenAbsent); err == nil {
@@ -738,9 +754,23 @@ func (s *v6Square) answersFor(key string, allowDial bool) []string {
 			out = append(out, a)
 			continue
 		}
+		if k, isPart := v6PartialOf(a); isPart {
+			if _, ok := s.tab[key]["part:"+k]; ok {
+				out = append(out, a)
+			}
+			continue
+		}
 		if _, ok := s.tab[key][a]; ok {
 			out = append(out, a)
 		}
 	}
 	return out
+}
+
+// v6PartialOf: "pr:<k>" / "ph:<k>" -> k.
+func v6PartialOf(a string) (string, bool) {
+	if strings.HasPrefix(a, "pr:") || strings.HasPrefix(a, "ph:") {
+		return a[3:], true
+	}
+	return "", false
 }
